@@ -224,6 +224,10 @@ def run(chk):
         "nesting depth is fixed at %d for every recursive construct (stack exhaustion beyond it is outside the model)" % DEPTH,
     ]
     res = chk.proof_stage("C11", allow_axioms=())
+    # optional bridge to C19's rendering model (not gating: C19's files belong to another property)
+    ok_bridge, _ = vlib.coq_build(["C11/Render.vo"])
+    chk.coverage["c19_bridge_lexer_spans_render"] = ("proved (C11/Render.v: every lexer span is rendered by caret_m / span_to_range_m, via C19 render_total)"
+                                                    if ok_bridge else "NOT available in this run (C11/Render.v does not build against the current coq/C19)")
     binary = vlib.build_harness("debug")
     dist = {}
     fails = []
@@ -246,12 +250,16 @@ def run(chk):
         for _ in range(6):
             trunc.append(s[:rng.randrange(len(s) + 1)])
             trunc.append(mutate(rng, s))
-    groups = [("lexical", lexs, 150), ("random-utf8", rand, 150), ("literals", lits, 150), ("truncated-mutated", trunc, 8)]
+    layout = ["".join(rng.choice("a \t\n\r#():\"") for _ in range(rng.randint(3, 10))) for _ in range(600 if quick else 6000)]
+    groups = [("lexical", lexs, 150), ("random-utf8", rand, 150), ("literals", lits, 150), ("layout", layout, 150),
+              ("truncated-mutated", trunc, 8)]
     model_ok = vlib.coq_build(["Lex/Chars.vo", "Lex/Layout.vo"])[0]
     if not model_ok:
         res["tie_ok"] = False
         res["broken"].append({"what": "model", "message": "Lex/Chars.v no longer builds"})
     n_corr = 0
+    import time as _t
+    t0 = _t.time()
     for name, srcs, shard in groups:
         real = c10.real_lex(binary, srcs)
         for r in real:
@@ -265,6 +273,8 @@ def run(chk):
             why = c10.compare_model(s, r, m)
             if why:
                 corr_bad.append({"group": name, "source": s[:400], "why": why})
+    vlib.log("[c11] correspondence %d cases in %.1fs" % (n_corr, _t.time() - t0))
+    t0 = _t.time()
     chk.coverage["traces_validated_against_impl"] = n_corr
     chk.coverage["correspondence_mismatches"] = len(corr_bad)
 
@@ -272,12 +282,12 @@ def run(chk):
     cases = []
     for name, s in corpus:
         cases.append(("corpus", s))
-    for _ in range(1500 if quick else 40000):
+    for _ in range(1500 if quick else 15000):
         s = rng.choice(corpus)[1]
         for _ in range(rng.choice([1, 1, 2, 3])):
             s = mutate(rng, s)
         cases.append(("mutated", s))
-    for _ in range(1000 if quick else 20000):
+    for _ in range(1000 if quick else 8000):
         cases.append(("random-utf8", random_utf8(rng, rng.choice([1, 2, 3, 5, 8, 13, 40, 200]))))
     for _, s in small_files[:(3 if quick else len(small_files))]:
         for i in range(len(s) + 1):
@@ -295,6 +305,7 @@ def run(chk):
     out = run_robust(binary, [c[1] for c in cases])
     if len(out) != len(cases):
         raise vlib.Infra("c11 robust: %d lines for %d cases" % (len(out), len(cases)))
+    vlib.log("[c11] robustness run %d cases in %.1fs" % (len(cases), _t.time() - t0))
     known_seen = {}
     for (group, s), line in zip(cases, out):
         g = group.split("@")[0] if group.startswith("nest-") else group
